@@ -10,7 +10,7 @@ import (
 
 func init() {
 	register("C18", propMeta{
-		Explanation: "E-GUARD + E-PROV + E-OWN + E-LOCK. O-1 sanitiser shape: clientAddr returns a non-empty address only through param != \"\", net.ParseIP(param) != nil and !ip.IsUnspecified() on that parsed IP; the value is (&net.TCPAddr{IP: ip, Port: 1}).String() of the parsed IP; every other return is the empty ClientMapAddr. O-2 flow: ServeHTTP sanitises the client_ip query value of this request and passes exactly that to turbotunnelMode, which stores it under this carrier's ClientID by the only Set call; acceptStreams fetches the address once, before the stream loop, with the session's RemoteAddr().(ClientID), and every accepted connection carries that value, which RemoteAddr() returns; on the proxy side the client_ip value is the String() of the address computed by remoteIPFromSDP, which returns only addresses that pass isRemoteAddress. O-3 bounded ring: entries is allocated once with the capacity and never appended or re-sliced; oldest advances only as (oldest + 1) % len(entries); inserting current[k] = oldest is preceded on every path by the delete of the stale owner of that slot; len(entries) == 0 returns before indexing; every access to the ring is under its mutex, Get's read of the entry included. Each clause is necessary: e.g. reading entries[i] after releasing the lock returns another session's address. Added after the second seeding round: O-2 every path from the successful ClientID read to the packet loops passes clientIDAddrMap.Set (each carrier records its address, not only the first), and the relay URL that client_ip is written into is parsed by this invocation of datachannelHandler; O-3 Set takes a new slot on every call with a non-empty ring.",
+		Explanation: "E-GUARD + E-PROV + E-OWN + E-LOCK. O-1 sanitiser shape: clientAddr returns a non-empty address only through param != \"\", net.ParseIP(param) != nil and !ip.IsUnspecified() on that parsed IP; the value is (&net.TCPAddr{IP: ip, Port: 1}).String() of the parsed IP; every other return is the empty ClientMapAddr. O-2 flow: ServeHTTP sanitises the client_ip query value of this request and passes exactly that to turbotunnelMode, which stores it under this carrier's ClientID by the only Set call; acceptStreams fetches the address once, before the stream loop, with the session's RemoteAddr().(ClientID), and every accepted connection carries that value, which RemoteAddr() returns; on the proxy side the client_ip value is the String() of the address computed by remoteIPFromSDP, which returns only addresses that pass isRemoteAddress. O-3 bounded ring: entries is allocated once with the capacity and never appended or re-sliced; oldest advances only as (oldest + 1) % len(entries); inserting current[k] = oldest is preceded on every path by the delete of the stale owner of that slot; len(entries) == 0 returns before indexing; every access to the ring is under its mutex, Get's read of the entry included. Each clause is necessary: e.g. reading entries[i] after releasing the lock returns another session's address. Added after the second seeding round: O-2 every path from the successful ClientID read to the packet loops passes clientIDAddrMap.Set (each carrier records its address, not only the first), and the relay URL that client_ip is written into is parsed by this invocation of datachannelHandler; O-3 Set takes a new slot on every call with a non-empty ring. Added after the third seeding round: ServeHTTP and its helpers store nothing in the handler object, which all requests of a listener share.",
 		NotDecided:  "which carrier is 'most recent' under concurrent carriers (history-level), the address being forgotten when the ring overflowed between set and get (documented behaviour).",
 		Assumptions: []string{"net.ParseIP / IsUnspecified / TCPAddr.String behave as documented"},
 	}, runC18)
@@ -86,6 +86,31 @@ func runC18(c *Ctx) {
 	sh := p.Fn("server/lib", "(*httpHandler).ServeHTTP")
 	tm := p.Fn("server/lib", "turbotunnelMode")
 	as := p.Fn("server/lib", "(*SnowflakeListener).acceptStreams")
+	// the handler object is shared by every request of a listener: nothing request-specific (the
+	// sanitised client address least of all) is stored in it
+	if sh != nil && len(sh.Params) > 0 {
+		recv := sh.Params[0]
+		bad := 0
+		for _, f := range helperFns(sh, 2) {
+			allInstrs(f, func(in ssa.Instruction) {
+				st, ok := in.(*ssa.Store)
+				if !ok {
+					return
+				}
+				base, fld, okf := fieldOfAddr(st.Addr)
+				if !okf {
+					return
+				}
+				if sameValue(base, func(v ssa.Value) bool { return v == ssa.Value(recv) }) {
+					bad++
+					c.viol(rule2, p.FnName(f)+" stores request data in the shared handler (field "+fld.Name()+")", p.instrPos(st), "the handler is one object for all requests of a listener: a value stored in it by one request is read by another request's carrier (the session is credited with someone else's address), and the accesses race")
+				}
+			})
+		}
+		if bad == 0 {
+			c.ok(rule2, "ServeHTTP keeps request data out of the shared handler object", p.Pos(sh.Pos()), "no store to a field of the receiver")
+		}
+	}
 	if sh == nil || tm == nil || as == nil || ca == nil {
 		c.undecided(rule2, "ServeHTTP/turbotunnelMode/acceptStreams", "-", "anchor does not resolve")
 	} else {
